@@ -91,7 +91,7 @@ def showOut (h : Heap) (op : Op) (ud : List Nat) : Out → String
 def showWrapper (h : Heap) (i : Nat) (u : UF) : String :=
   match h.dicts[u.cell]? with
   | some d =>
-    s!"W{i}={u.fn}:{if u.callable then "c" else "k"}:{showNames u.params}:{showDict d}:{showNames (necessary u.params d)}:{showNames (optional u.params d)}"
+    s!"W{i}={u.fn}:{if u.callable then "c" else "k"}:{showNames u.params}:{showDict (d.filter fun kv => u.params.contains kv.1)}:{showNames (necessary u.params d)}:{showNames (optional u.params d)}"
   | none => s!"W{i}=dangling"
 
 def digest (h : Heap) (ud : List Nat) : String :=
